@@ -450,6 +450,15 @@ def _hex(x):
     return x.hex() if x else '-'
 
 
+def _run_alone(exe, case, env, timeout):
+    text = '%s %s %s %s %s\n' % (case[0], case[1], case[2], case[3], _hex(case[4]))
+    try:
+        subprocess.run([exe], input=text.encode(), stdout=subprocess.PIPE, stderr=subprocess.PIPE, env=env, timeout=timeout)
+        return True
+    except subprocess.TimeoutExpired:
+        return None
+
+
 def run_driver(exe, cases, timeout=120):
     """cases: list of (id, type, endian, op, bytes).  Returns {id: result dict}; a result
     may be {'crash': report text, 'exit': code} when the process died on that case."""
@@ -484,6 +493,28 @@ def run_driver(exe, cases, timeout=120):
                 results[cur]['ubsan'] = line.strip()[-300:]
         if code == 0:
             break
+        if code == -999:
+            # ran out of time: a loaded machine or a case that never ends.  Go on after the finished cases; only a
+            # case that makes no progress when it runs first, alone, within the full time is reported as a hang.
+            ids = [c[0] for c in pending]
+            if last_begin is None:
+                raise RuntimeError('driver produced nothing within %d s' % timeout)
+            idx = ids.index(last_begin)
+            if last_begin in done:
+                pending = pending[idx + 1:]
+                continue
+            if idx > 0:
+                pending = pending[idx:]
+                continue
+            alone = _run_alone(exe, pending[0], env, timeout)
+            if alone is None:
+                results[last_begin] = {'id': last_begin, 'crash': 'TIMEOUT: the case alone does not finish within %d s' % timeout,
+                                       'exit': code}
+                pending = pending[1:]
+            else:
+                pending = pending[0:]
+                timeout *= 2        # it does finish alone: the machine is slow, give the batch more time
+            continue
         # died: attribute to the last BEGIN without result
         if last_begin is None or last_begin in done:
             # died outside a case: harness problem
